@@ -5,8 +5,13 @@
 // focused sub-grammars of ECMA-262 (ASI boundaries, regexp-vs-division,
 // contextual keywords as identifiers, cover grammars, Annex B labelled
 // functions and HTML-like comments, numeric separators, escapes in
-// identifier names, class elements).  TLC enumerates every terminal string of
-// at most MaxLen tokens together with the productions used.
+// identifier names, class elements) and three structural sub-grammars
+// (forhead: for / for-in / for-of / for-await heads with `in`-carrying and
+// closure leaves in every clause; inop: the [In]-parameterised productions
+// through every forwarding / resetting operator; scopes: every scope-opening
+// statement kind x scope-bearing expressions in every clause position, two at
+// a time).  TLC enumerates every terminal string of at most MaxLen tokens and
+// derivation weight <= MaxCost together with the productions used.
 // Binding (R): for each string and goal (script / module) V8 (compile only)
 // and acorn decide validity of the INPUT; esbuild must accept what both
 // accept; whatever esbuild accepts must compile in V8 and parse in acorn, and
@@ -252,11 +257,13 @@ func Run(r *core.Run) {
 		evalStrings(r, map[string]*gramCase{"k": &c}, []string{"k"}, []config{rec.Detail.Config}, nil)
 		return
 	}
-	r.Set("rule", "strings are ALL terminal strings (<= 20 tokens) derivable in the focused sub-grammars of spec/JsGrammar.tla, enumerated exhaustively by TLC (state = sentential form, action = production at the leftmost non-terminal); a string is non-trivial iff its derivation uses >= 1 production marked rare (line terminator in an ASI-sensitive place, regexp/division ambiguity, contextual keyword as identifier, cover-grammar refinement, Annex B form, separator/escape form, class-element modifier/name combination); distinct = distinct token sequences")
+	r.Set("rule", "strings are the terminal strings derivable in the eleven sub-grammars of spec/JsGrammar.tla (<= MaxLen tokens, derivation weight <= MaxCost), enumerated exhaustively by TLC (state = sentential form + weight, action = production at the leftmost non-terminal); the thorough tier evaluates every string, the quick tier a VERIF_SEED-determined sub-sample (all strings of the small grammars and all strings below the weight bound, a fixed fraction of the rest, at least one string per production); a string is non-trivial iff its derivation uses >= 1 production marked rare (line terminator in an ASI-sensitive place, regexp/division ambiguity, contextual keyword as identifier, cover-grammar refinement, Annex B form, separator/escape form, class-element modifier/name combination, an `in`-carrying or scope-bearing alternative in a clause position, an [In]-forwarding/resetting operator, a scope-opening statement kind); distinct = distinct token sequences")
 	r.Assume("validity of an input for a goal = V8 (vm.Script / vm.SourceTextModule, compile only) AND acorn 8.16 (ecmaVersion latest) both accept it; strings on which they disagree carry no acceptance requirement")
 	r.Assume("script goal = no output format; module goal = format esm; clause 'output is valid for the requested kind' is applied to inputs that are valid for that goal; for inputs that are NOT valid for the goal but that esbuild accepts, the output must be valid for at least one goal")
 	r.Assume("not generated (analysed at first occurrence): `await` used as an identifier at the top level of a file (esbuild parses every file as a potential ES module with top-level await and rejects it deliberately: js_parser.go 'Allow top-level await'); the `accessor` class-member modifier (esbuild implements the auto-accessor proposal, which Node 20's V8 and acorn 8.16 do not know, so there is no reference); top-level `this` under format=esm (esbuild treats the file as CommonJS and wraps it, a format conversion outside this property)")
 	r.Assume("mutations of the repository's own test inputs are C16's subject and are not generated here")
+	r.Assume("the structural grammars (forhead, inop, scopes) derive pure-ASCII programs, on which the charset option cannot act: they run under {pretty, minify-whitespace} x charset=ascii for each goal; the strings with an escaped astral identifier run under every selected configuration")
+	r.Assume("programs are compiled, not executed: the console trace of input vs output is not compared (C02/C15 execute programs)")
 
 	var cfgs []config
 	for _, g := range []string{"script", "module"} {
